@@ -95,10 +95,46 @@ def run(chk):
 
 
 # ------------------------------------------------------------------------------------------------
+def expand_weighted_sums(term: P, consts) -> P:
+    """W @ X[ROWS, COLS]  /  numpy.dot(W, X[IDX])  /  numpy.einsum('i,i...->...', W, X[IDX])  with module-level constant vectors W, ROWS, COLS
+    (sa/constfold.py)  ->  the explicit sum  W[0] * X[ROWS[0], COLS[0]] + ...   (what the digit loop computes)."""
+    def const_of(t):
+        a = t.as_atom()
+        if a and a[0] == "name" and a[1].split(".")[-1] in consts and isinstance(consts[a[1].split(".")[-1]], list):
+            return consts[a[1].split(".")[-1]]
+        return None
+
+    def explicit(w, x):
+        W = const_of(w)
+        xa = x.as_atom()
+        if W is None or not (xa and xa[0] == "sub"):
+            return None
+        idx = [const_of(i) for i in xa[2]]
+        if any(i is None or len(i) != len(W) for i in idx):
+            return None
+        tot = P.const(0)
+        for k, wk in enumerate(W):
+            tot = tot + P.const(wk) * P.atom(("sub", xa[1], tuple(P.const(i[k]) for i in idx)))
+        return tot
+    mapping = {}
+    for a in find_atoms(term, lambda a: a[0] == "matmul" and len(a[1]) == 2):
+        e = explicit(a[1][0], a[1][1]) or explicit(a[1][1], a[1][0])
+        if e is not None:
+            mapping[a] = e
+    for a in find_atoms(term, lambda a: a[0] == "call" and call_name(a) == "numpy.einsum" and len(a[2]) == 3 and string_value(a[2][0]) in
+                        ("i,i...->...", "i,i->", "i,i", "i...,i->...", "i,i->...")):
+        e = explicit(a[2][1], a[2][2]) or explicit(a[2][2], a[2][1])
+        if e is not None:
+            mapping[a] = e
+    return term.subs(mapping) if mapping else term
+
+
 def encoder_form(chk, so):
+    from ..constfold import module_constants
     ev = so.ev("encode_symm_int")
     chk.saw(SO, "encode_symm_int")
     chk.need(len(ev.returns) == 1, "encode_symm_int: expected one return")
+    ev.returns[0].value = expand_weighted_sums(ev.returns[0].value, module_constants(so.tree))
     lf = linear_form(ev.returns[0].value)
     if lf is None:
         raise AnalysisError("encode_symm_int: the packed value is not a linear form in the digits")
